@@ -976,4 +976,11 @@ fn spawn_async_ao_list_in_task'''),
         ('arithmetic-cache-key-drops-blanks', 'brush-parser/src/arithmetic.rs', 'convert = r#"{ input.to_owned() }"#', 'convert = r#"{ input.split_whitespace().collect::<String>() }"#'),
         ('word-cache-ignores-the-options', 'brush-parser/src/word.rs', 'key = "(String, ParserOptions)",\n    convert = r#"{ (word.to_owned(), options.to_owned()) }"#', 'key = "String",\n    convert = r#"{ word.to_owned() }"#'),
     ],
+    'U20d': [
+        ('operator-span-starts-one-byte-late', 'brush-interactive/src/highlighting.rs', "let start = global_offset + byte_offset(token_location.start.index);", "let start = global_offset + byte_offset(token_location.start.index) + 1;"),
+        ('token-offsets-used-as-bytes', 'brush-interactive/src/highlighting.rs', "let end = global_offset + byte_offset(token_location.end.index);", "let end = global_offset + token_location.end.index;"),
+        ('substituted-command-starts-after-one-byte', 'brush-interactive/src/highlighting.rs', "self.highlight_program(command.as_str(), piece.start + 2 /* opening $( */);", "self.highlight_program(command.as_str(), piece.start + 1 /* opening $( */);"),
+        ('backquoted-command-from-the-cooked-text', 'brush-interactive/src/highlighting.rs', "                    .get(piece.start + 1..piece.end.saturating_sub(1))\n                    .unwrap_or(command.as_str());", "                    .get(piece.start + 1..piece.start + 1 + command.len())\n                    .unwrap_or(command.as_str());"),
+        ('fallback-span-ends-in-the-middle', 'brush-interactive/src/highlighting.rs', "                global_offset..global_offset + line.len(),", "                global_offset..global_offset + line.len() / 2,"),
+    ],
 }
